@@ -235,6 +235,12 @@ def sweep(target, make: t.Callable[[int], t.Any]):
 def verdict(res) -> str:
     d = max([x for x in (res["d_cpu"], res["d_ev"]) if x is not None] or [0.0])
     res["d"] = d
+    measurable = [p for p in res["points"] if not p[3] and (p[1] > NOISE_CPU or p[2] > NOISE_EVENTS)]
+    if res["capped_at"] is not None and res["capped_at"] <= 64 and len(measurable) < 2:
+        # the cost cap (2 CPU-seconds / 2e7 events) is hit by an input of a few dozen units with no measurable run-up:
+        # a hang or a blow-up too steep to even sample
+        res["d"] = float("inf")
+        return "violation"
     if res["capped_at"] is not None and res["capped_at"] < NMAX and d > 8:
         return "violation"
     if d <= 5:
@@ -303,6 +309,45 @@ def hand_families():
     add("many-attrs", "receive", lambda n: rfc4511.encode(("SearchRequest", 1, ("", 2, 0, 0, 0, False, ("present", "cn"), tuple("a" for _ in range(max(1, n // 3)))), ())))
     add("wide-filter", "receive", lambda n: rfc4511.encode(("SearchRequest", 1, ("", 2, 0, 0, 0, False, ("and", tuple(("present", "a") for _ in range(max(1, n // 3)))), ()), ())))
     add("many-substrings", "receive", lambda n: rfc4511.encode(("SearchRequest", 1, ("", 2, 0, 0, 0, False, ("sub", "a", None, tuple(b"x" for _ in range(max(1, n // 3))), None), ()), ())))
+    def _bad_leaf(depth, tag):
+        inner = b"\xbf\x63\x00"  # unknown filter choice [99]
+        for _ in range(depth):
+            inner = bytes([tag]) + ber.length_octets(len(inner)) + inner
+        body = b"\x04\x00\x0a\x01\x02\x0a\x01\x00\x02\x01\x00\x02\x01\x00\x01\x01\x00" + inner + b"\x30\x00"
+        op = b"\x63" + ber.length_octets(len(body)) + body
+        env = b"\x02\x01\x01" + op
+        return b"\x30" + ber.length_octets(len(env)) + env
+
+    def _bad_leaf2(depth, tag):
+        inner = b"\xa3\x05\x02\x01\x01\x04\x00"  # equalityMatch whose attributeDesc is an INTEGER: a tag mismatch (ValueError) at the leaf
+        for _ in range(depth):
+            inner = bytes([tag]) + ber.length_octets(len(inner)) + inner
+        body = b"\x04\x00\x0a\x01\x02\x0a\x01\x00\x02\x01\x00\x02\x01\x00\x01\x01\x00" + inner + b"\x30\x00"
+        op = b"\x63" + ber.length_octets(len(body)) + body
+        env = b"\x02\x01\x01" + op
+        return b"\x30" + ber.length_octets(len(env)) + env
+
+    for nm, tg in (("not", 0xA2), ("and", 0xA0), ("or", 0xA1)):
+        add(f"nested-filter-wrong-tag-leaf-{nm}", "receive", lambda n, tg=tg: _bad_leaf2(min(n, 400), tg))
+    add("nested-filter-bad-leaf-not", "receive", lambda n: _bad_leaf(min(n, 400), 0xA2))
+    add("nested-filter-bad-leaf-and", "receive", lambda n: _bad_leaf(min(n, 400), 0xA0))
+    add("nested-filter-bad-leaf-or", "receive", lambda n: _bad_leaf(min(n, 400), 0xA1))
+    add("nested-text-filter-bad-leaf", "filter", lambda n: "(&" * min(n, 400) + "(a=\\zz)" + ")" * min(n, 400))
+    res0 = (0, "", "", None)
+    trail = lambda n: b"".join(b"\x88\x01x" for _ in range(max(1, n // 3)))
+
+    def _with_trailing(a, n, where):
+        root = rfc4511.Enc().message(a)
+        tgt = root if where == "envelope" else root.children[1]
+        for _ in range(max(1, n // 3)):
+            tgt.children.append(ber.Node(ber.CTX, False, 8 + (_ % 3) * 20, content=b"x"))
+        return ber.ser(root)
+
+    for opname, body in (("BindResponse", (res0, None)), ("SearchResultDone", (res0,)), ("ExtendedResponse", (res0, None, None)), ("SearchResultEntry", ("cn=x", ()))):
+        add(f"trailing-unknown-in-{opname}", "receive-client", lambda n, opname=opname, body=body: _with_trailing((opname, 1, body, ()), n, "op"))
+        add(f"trailing-unknown-in-envelope-{opname}", "receive-client", lambda n, opname=opname, body=body: _with_trailing((opname, 1, body, ()), n, "envelope"))
+    for opname, body in (("BindRequest", (3, "", ("sasl", "X", None))), ("ExtendedRequest", ("1.2", None)), ("SearchRequest", ("", 2, 0, 0, 0, False, ("ext", "r", "a", b"v", False), ()))):
+        add(f"trailing-unknown-in-{opname}", "receive", lambda n, opname=opname, body=body: _with_trailing((opname, 1, body, ()), n, "op"))
     add("garbage-high-tag", "receive", lambda n: b"\x30" + ber.length_octets(n + 3) + b"\x02\x01\x01" + b"\xbf" + b"\xff" * (n - 1) + b"\x7f")
     add("incomplete-header-run", "receive", lambda n: b"\x1f" + b"\x81" * n)
     add("bytewise-incomplete-identifier", "receive-bytewise", lambda n: b"\x3f" + b"\xff" * n)
@@ -320,6 +365,15 @@ def pump_family(r, kind):
         k, d = gs.g_def(r)
         s = gs.Render(r, canonical=r.random() < 0.5).definition(k, d)
         target = {"oc": "schema-oc", "at": "schema-at", "dcr": "schema-dcr"}[k]
+    elif kind == "receive-client":
+        from vf.gen import values as gv
+        from vf.props.c04 import _ser, apply_random
+
+        a = gv.g_message(r, gv.SMALL, op=r.choice(["BindResponse", "SearchResultEntry", "SearchResultDone", "SearchResultReference", "ExtendedResponse"]), mid=1)
+        root = rfc4511.Enc().message(a)
+        apply_random(root, r, lambda *x: None)
+        s = _ser(root)
+        target = "receive-client"
     else:
         a = gv_message(r)
         s = rfc4511.encode(a)
@@ -516,7 +570,7 @@ def run_shard(ctx: Ctx, acc: Acc):
     n = ctx.scale(6_400, 200_000)
     for i in range(n):
         r = ctx.rng("pump", i)
-        kind = ["filter", "schema", "schema", "receive"][i % 4]
+        kind = ["filter", "schema", "schema", "receive", "receive-client"][i % 5]
         fam = pump_family(r, kind)
         if fam is None:
             continue
